@@ -1,14 +1,160 @@
-import RtenVerif.Lemmas.IterOffsets
+import RtenVerif.Lemmas.IterNew
+import RtenVerif.Lemmas.IterMap
 
 /-!
 # C07 — Tensor iterators yield exactly the logical elements in order
+
+Property theorems over `RtenVerif.Model.Iter` (model of `rten-tensor/src/iterators.rs`,
+`iterators/parallel.rs` and `merge_axes`).  A layout `dims` is the list of `(size, stride)`
+pairs, outermost first; `rowMajor dims` is the specification (offsets of all valid indices in
+lexicographic order); `listOps` is a deque; `run ops h s` are the observations of the history
+tree `h` (any interleaving of `next`, `next_back`, `nth k`, `len`, `split_at k` with *both*
+halves continued, ending in `fold`, reverse draining, or drop).
+
+Full statement of C07: for every layout and history, every iterator kind observes what the
+deque over its logical item list observes.  Proved here, at full strength, for the element
+iterators (`Iter`/`IterMut`, both the contiguous `Range` path and the `Indexing` path incl.
+`merge_axes`), for `Lanes`/`LanesMut` and for `InnerIter`/`InnerIterMut` (current, fixed
+code).  `AxisIter`/`AxisChunks` are modelled and tied to the code by the harness only (their
+pre-fix defects have `decide`d witnesses below); see `checks/C07.json`.
 -/
 namespace RtenVerif.Iter
+open OffsetsBase
 
-/-- **C07.T1 (state-level)** For every reachable state of the offsets iterator and every
-history, the observations equal those of a deque over the remaining offsets. -/
+/-- **C07.T1 (state level)** For every state of the offsets iterator satisfying the
+invariant — in particular every state reachable from `Offsets::new` by any history, since
+every operation preserves it (`offsets_refines`) — and every further history, the
+observations equal those of a deque over the offsets still to be yielded. -/
 theorem c07_offsets_history (h : Hist) (s : Offsets) (hs : OffInv s) :
     run Offsets.ops h s = run (listOps Nat) h (absO s) :=
   run_refines offsets_refines h s hs
+
+/-- **C07.T1** `iter()` / `iter_mut()`: for every layout (any rank, sizes, strides — contiguous,
+permuted, stepped, broadcast, empty) and every history, the yielded offsets, lengths, fold
+contents and split halves are exactly those of a deque over the row-major offset list: each
+logical element once, in order from the front and in reverse from the back. -/
+theorem c07_iter_history (dims : List (Nat × Nat)) (h : Hist) :
+    run Offsets.ops h (Offsets.new dims) = run (listOps Nat) h (rowMajor dims) := by
+  obtain ⟨hinv, habs⟩ := offsets_new dims
+  rw [c07_offsets_history h _ hinv, habs]
+
+/-- **C07.T2** `merge_axes` preserves the row-major offset sequence. -/
+theorem c07_merge_axes_rowMajor (dims : List (Nat × Nat)) :
+    rowMajor (mergeAxes dims) = rowMajor dims := mergeAxes_rowMajor dims
+
+/-- Logical lane list: one lane per index of the other dimensions, in row-major order
+(none if the tensor is empty). -/
+def lanesSpec (dims : List (Nat × Nat)) (dim : Nat) : List Item :=
+  if total dims = 0 then []
+  else (rowMajor (dims.eraseIdx dim)).map
+    (laneItem (dims.getD dim (0, 0)).1 (dims.getD dim (0, 0)).2)
+
+/-- **C07.T3a** `lanes(dim)` / `lanes_mut(dim)`: every history observes the deque over the
+logical lane list. -/
+theorem c07_lanes_history (dims : List (Nat × Nat)) (dim : Nat) (h : Hist) :
+    run (lanesOps dims dim) h (lanesNew dims dim) = run (listOps Item) h (lanesSpec dims dim) := by
+  unfold lanesOps lanesNew lanesSpec
+  by_cases hz : total dims = 0
+  · obtain ⟨hinv, habs⟩ := offsets_new dims
+    simp only [hz, if_true]
+    rw [run_refines (mapOps_refines _) h _ hinv, habs]
+    have : rowMajor dims = [] := List.length_eq_zero_iff.mp (by rw [rowMajor_length, hz])
+    rw [this]; rfl
+  · obtain ⟨hinv, habs⟩ := offsets_new (dims.eraseIdx dim)
+    simp only [hz, if_false]
+    rw [run_refines (mapOps_refines _) h _ hinv, habs]
+
+/-- Logical inner-view list for `inner_iter(n)`: one view per index of the outer dims (outer
+strides are irrelevant, and zeroed by the code, when the inner views are empty). -/
+def innerSpec (dims : List (Nat × Nat)) (n : Nat) : List Item :=
+  let outer := dims.take (dims.length - n)
+  let inner := dims.drop (dims.length - n)
+  (rowMajor (if minDataLen inner = 0 then outer.map (fun d => (d.1, 0)) else outer)).map
+    (innerItem inner)
+
+/-- **C07.T3b** `inner_iter(n)` / `inner_iter_mut(n)`: every history observes the deque over
+the logical inner-view list. -/
+theorem c07_inner_history (dims : List (Nat × Nat)) (n : Nat) (h : Hist) :
+    run (innerOps dims n) h (innerNew dims n) = run (listOps Item) h (innerSpec dims n) := by
+  unfold innerOps innerNew innerSpec
+  simp only
+  obtain ⟨hinv, habs⟩ := offsets_new
+    (if minDataLen (dims.drop (dims.length - n)) = 0
+      then (dims.take (dims.length - n)).map (fun d => (d.1, 0)) else dims.take (dims.length - n))
+  rw [run_refines (mapOps_refines _) h _ hinv, habs]
+
+/-! ### Non-vacuity: concrete non-trivial histories (kernel-evaluated) -/
+
+/-- The transposed 3×3 layout goes through the `Indexing` path and `merge_axes`; the mixed
+history `next, next_back, nth 1, len, split_at 2 {fold | rev}` yields `0, 8, 6, 5 left,
+[1,4], [2,7,5] reversed`. -/
+example :
+    run Offsets.ops (.next (.back (.nth 1 (.len (.split 2 .fold .rev))))) (Offsets.new [(3, 1), (3, 3)])
+      = [.item (some 0), .item (some 8), .item (some 6), .len 5, .folded [1, 4], .reved [5, 2, 7]] := by
+  decide
+
+example : RtenVerif.Overlap.isContiguous [(3, 1), (3, 3)] = false ∧ rowMajor [(3, 1), (3, 3)] = [0, 3, 6, 1, 4, 7, 2, 5, 8] := by
+  decide
+
+/-! ### Negation witnesses: the code before the `fix:` commits violated the property -/
+
+/-- The state after one `next()` on the transposed 3×3 tensor `0..9`. -/
+def witnessState : OffsetsBase := (OffsetsBase.new [(3, 1), (3, 3)]).next.2
+
+theorem witnessState_inv : Inv witnessState :=
+  (next_spec (base_new [(3, 1), (3, 3)]).1).2.2
+
+/-- **Pre-fix `OffsetsBase::next_back` is wrong** (`index = len - 1` used as an absolute
+index): after `next()` it returns offset 5 (observed on the real code: `next_back()` = 5) instead of the
+last element, offset 8.  The refinement statement `next_back = getLast?` is false of the old code. -/
+theorem c07_next_back_v0_false :
+    ¬ (∀ s : OffsetsBase, Inv s → s.nextBackV0.1 = (absB s).getLast?) := by
+  intro h
+  have := h witnessState witnessState_inv
+  revert this
+  decide
+
+/-- The same state on the fixed code (instance of `nextBack_spec`). -/
+example : witnessState.nextBack.1 = some 8 ∧ witnessState.nextBackV0.1 = some 5 := by decide
+
+/-- Logical item list of `axis_iter(axis)`. -/
+def axisSpec (v : View) (axis : Nat) : List Item :=
+  (List.range (v.size axis)).map (fun i => (v.indexAxis axis i).item)
+
+/-- **Pre-fix `AxisIter::split_at` is wrong**: it ignored the consumed prefix, so after
+`next()` the left half re-yields row 0 (for `AxisIterMut`: a second `&mut` view of row 0). -/
+theorem c07_axis_split_v0_false :
+    run { AxisIter.ops with splitAt := AxisIter.splitAtV0 } (.next (.split 1 .fold .fold))
+        (AxisIter.new ⟨0, [(3, 3), (3, 1)]⟩ 0)
+      ≠ run (listOps Item) (.next (.split 1 .fold .fold)) (axisSpec ⟨0, [(3, 3), (3, 1)]⟩ 0) := by
+  decide
+
+/-- The fixed `split_at` on the same input (sample, kernel-evaluated — a test, not a proof of
+the general statement). -/
+example :
+    run AxisIter.ops (.next (.split 1 .fold .fold)) (AxisIter.new ⟨0, [(3, 3), (3, 1)]⟩ 0)
+      = run (listOps Item) (.next (.split 1 .fold .fold)) (axisSpec ⟨0, [(3, 3), (3, 1)]⟩ 0) := by
+  decide
+
+/-- Logical chunk list of `axis_chunks(axis, chunk)`. -/
+def chunksSpec (v : View) (axis chunk : Nat) : List Item :=
+  (List.range ((v.size axis + chunk - 1) / chunk)).map fun k =>
+    let lo := k * chunk
+    let hi := min ((k + 1) * chunk) (v.size axis)
+    (View.mk (v.base + lo * v.stride axis) (View.setSize v.dims axis (hi - lo))).item
+
+/-- **Pre-fix `AxisChunks::next_back` is wrong**: on an axis of 5 with chunks of 2 it yields
+`[3,4]` from the back, which is not a chunk of the forward sequence `[0,1] [2,3] [4]`. -/
+theorem c07_chunks_next_back_v0_false :
+    run { AxisChunks.ops with nextBack := AxisChunks.nextBackV0 } (.back .drop)
+        (AxisChunks.new ⟨0, [(5, 1)]⟩ 0 2)
+      ≠ run (listOps Item) (.back .drop) (chunksSpec ⟨0, [(5, 1)]⟩ 0 2) := by
+  decide
+
+/-- Fixed `AxisChunks` on the same layout, mixed history incl. `split_at(len)` (sample). -/
+example :
+    run AxisChunks.ops (.back (.len (.split 2 .fold (.next .drop)))) (AxisChunks.new ⟨0, [(5, 1)]⟩ 0 2)
+      = run (listOps Item) (.back (.len (.split 2 .fold (.next .drop)))) (chunksSpec ⟨0, [(5, 1)]⟩ 0 2) := by
+  decide
 
 end RtenVerif.Iter
